@@ -510,8 +510,10 @@ func foldComplete(it Itv) bool {
 	return true
 }
 
-func propC15Checksum(c *Ctx) {
-	b4 := c.Rule("B4", "K8 carry completeness", "no carry is dropped when folding to 16 bits", 4)
+func propC15Checksum(c *Ctx) { checksumCarryRule(c, "B4") }
+
+func checksumCarryRule(c *Ctx, id string) {
+	b4 := c.Rule(id, "K8 carry completeness", "no carry is dropped when folding to 16 bits", 4)
 	an := NewAbsint(c.P)
 	for _, name := range []string{"header.Checksum", "header.ChecksumCombine"} {
 		fn := c.Fn(b4, name)
